@@ -358,7 +358,7 @@ partial def runCircuitOps (fresh : OState × CState × SpecC03.Book) (ck : Close
         let want := if cfg.forceOpen then true else if cfg.forcedClosed then false else under
         if cfg.disabled then "-" else
         if realOpen != want then "!C08:IsOpen after an override change is not ForceOpen / ForcedClosed / the underlying state|C09:IsOpen disagrees with the last notification" else "-"
-      runCircuitOps fresh ck c' cfg { rb with openBefore := realOpen } rest (acc.push (s!"open={fmtBool (isOpenEff c')}" ++ "\t" ++ spec))
+      runCircuitOps fresh ck c' cfg { rb with openBefore := realOpen } rest (acc.push (s!"open={fmtBool (isOpenEff c')} told=1" ++ "\t" ++ spec))
     | some "rebuild" =>
       -- SetConfigNotThreadSafe with ANOTHER TimeKeeper (clock B = clock A + 1000 s): the factories are asked again, so
       -- the opener and the closer start afresh; the open/closed flag and the gauges stay
